@@ -75,6 +75,7 @@ ASSUMPTIONS = [
     "sys.get_int_max_str_digits() is the default 4300",
     "xml.etree.ElementTree (expat) is the standards XML parser",
     "the RELAX NG compact subset interpreter in this module reads schema/ksr.rnc faithfully (subset: element/attribute/ref/group/choice/?/*/+/empty/xsd datatypes with min/maxInclusive)",
+    "the signer emits bundles in the loader's order (expiration, inception, id): request bundles are sorted that way on load and sign_bundles keeps their order",
     "writer domain (in_domain below): no timestamp, RSA policies with >= 1 entry, >= 1 bundle/key/signature, attribute values and element texts free of \" < > & and control characters, texts stripped, years 1000..9999, durations whole seconds 0..400 d, unsigned fields in their schema ranges",
 ]
 TRUSTED = ["xml.etree.ElementTree as XML oracle and the RNC-subset interpreter in corr_C11"]
@@ -286,6 +287,9 @@ def in_domain(resp: Any) -> tuple[bool, str]:
         return False, "serial not printable"
     if not resp.bundles:
         return False, "no bundles"
+    keys = [(b.expiration, b.inception, b.id) for b in resp.bundles]
+    if keys != sorted(keys):
+        return False, "bundle order"
     for p in (resp.ksk_policy, resp.zsk_policy):
         if not p.algorithms:
             return False, "empty algorithm set"
@@ -1204,6 +1208,27 @@ def wrapped_ksr_witness(res: Result, model_lines: list[dict[str, Any]], pending:
     pending.append(("F6:wrapped-base64-ksr", resp, True, "multiline-key-text"))
 
 
+CORPUS = lib.VERIF / "corpus" / "C11_findings.json"
+
+
+def corpus_first(res: Result, model_lines: list[dict[str, Any]], pending: list[Any]) -> None:
+    """Recorded findings (corpus/C11_findings.json) are replayed first on every run: each entry is a
+    response (JSON shape of lib.response_j) with the `what`/`key` it is reported under while it fails."""
+    import json
+
+    if not CORPUS.exists():
+        return
+    for entry in json.loads(CORPUS.read_text()):
+        try:
+            resp = response_from_j(entry["response"])
+        except Exception as exc:  # noqa: BLE001
+            res.notes.append(f"corpus entry {entry.get('id')}: cannot rebuild ({type(exc).__name__}: {exc})")
+            continue
+        pending.append((f"corpus:{entry.get('id')}", resp, bool(entry.get("real_signatures")), entry.get("key")))
+        model_lines.append({"op": "skr_to_xml", "response": response_j(resp)})
+        res.bump("corpus:entries")
+
+
 def witnesses(res: Result, model_lines: list[dict[str, Any]], pending: list[Any]) -> None:
     """Responses at the edge of the writer's domain: judged outside (notes), model text still compared."""
     from kskm.common.data import SignaturePolicy
@@ -1256,6 +1281,12 @@ def witnesses(res: Result, model_lines: list[dict[str, Any]], pending: list[Any]
         resp = base.replace(bundles=[b0.replace(keys=set(ks)), base.bundles[1]])
         pending.append((f"keytext:{fieldtext!r}", resp, False, None))
         model_lines.append({"op": "skr_to_xml", "response": response_j(resp)})
+    # bundles not in the loader's (expiration, inception, id) order
+    base = mk_response(r, 3, real=False, pool=pool)
+    for tagname, order in (("reversed", [2, 1, 0]), ("swapped", [1, 0, 2])):
+        resp = base.replace(bundles=[base.bundles[i] for i in order])
+        pending.append((f"bundle-order:{tagname}", resp, False, None))
+        model_lines.append({"op": "skr_to_xml", "response": response_j(resp)})
     # negative serial, timestamp
     base = mk_response(r, 2, real=False, pool=pool)
     pending.append(("serial:-1", base.replace(serial=-1), False, None))
@@ -1289,6 +1320,7 @@ def run(tier: str, driver_ok: bool) -> Result:
         pending.append((tag, resp, real, None))
         lines.append({"op": "skr_to_xml", "response": response_j(resp)})
 
+    corpus_first(res, lines, pending)
     reps_real = 6 if big else 2
     reps_fake = 40 if big else 10
     for n in range(1, 10):
